@@ -28,7 +28,10 @@ def rot(g, x):
 
 # physical embeddings: (scale, offset) -- the expected answer is translation invariant, d2 scales with scale^2
 EMBED = [(1.0, (0.0, 0.0, 0.0)), (2.0 ** -17, (0.0, 0.0, 0.0)), (1.0, (10.0, 10.0, 10.0)), (1.0, (-3.0, 7.0, 1000.0)),
-         (0.5, (1e6, -1e6, 3e5)), (2.0 ** -17, (1.0, -2.0, 0.5))]
+         (0.5, (1e6, -1e6, 3e5)), (2.0 ** -17, (1.0, -2.0, 0.5)),
+         # separations of 1e-8 .. 1e-9 of the coordinate magnitude (still exact: multiples of 2^-17 / 2^-20 below 2^12): differences that
+         # a "clean-up" of small components would zero although doubles resolve them
+         (2.0 ** -17, (1024.0, -2048.0, 1536.0)), (2.0 ** -20, (4096.0, 4096.0, -4096.0))]
 
 
 def thin_verdict(c, e, L, h, o):
@@ -88,7 +91,7 @@ def run(tier, seed, replay=None):
         if tier == "thorough":
             picks += [(e, rnd.choice(rots)) for e in EMBED[1:]]
         else:
-            picks += [(rnd.choice(EMBED[1:]), rnd.choice(rots)), (rnd.choice(EMBED[2:]), rots[0])]
+            picks += [(rnd.choice(EMBED[1:6]), rnd.choice(rots)), (rnd.choice(EMBED[2:6]), rots[0]), (EMBED[6 + len(cases) % 2], rnd.choice(rots))]
         for (sc, off), g in picks:
             cases.append({"k": len(cases) + 1, "p": rot(g, list(st["p"])), "a": rot(g, list(st["a"])), "b": rot(g, list(st["b"])),
                           "c": rot(g, list(st["c"])), "scale": sc, "off": list(off)})
